@@ -36,6 +36,7 @@ def gen_cases(tier, seed):
         n = {"quick": 40 if kind == "mem" else 14, "thorough": len(combos) if kind == "mem" else 120}[tier]
         for M, backlog, d, tl, nq in combos[:n]:
             cases.append({"type": "limit", "kind": kind, "M": M, "backlog": backlog if rnd.random() < 0.7 else M, "d": d, "tl": tl, "nq": nq, "seed": rnd.randrange(10**6), "late": rnd.random() < 0.5,
+                          "leak": kind != "rabbit" and rnd.random() < 0.35,  # (on RabbitMQ a leaked cancellation shrinks the prefetch window: C09's finding)
                           "latency": None if kind == "mem" else rnd.choice([None, 0.002])})
     for i in range({"quick": 12, "thorough": 150}[tier]):
         cases.append({"type": "plugin", "kind": "mem", "seed": rnd.randrange(10**6), "len": rnd.choice([3, 6, 10])})
@@ -69,7 +70,12 @@ async def limit_scenario(loop, case, out, stats, fps, samples):
             qi = rnd.randrange(nq)
             id_ = f"j{i:03d}"
             ids.append(id_)
-            await w.job(f"act{qi}", id_, {"do": "ok", "d": dur(qi)}, queue=queues[qi], retries=2, timeout=timedelta(seconds=60), store_result=False).enqueue()
+            script = {"do": "ok", "d": dur(qi)}
+            if case.get("leak") and rnd.random() < 0.3:
+                # the actor lets a CancelledError escape: the execution was started and is over, it counts
+                script = {"do": "raise", "exc": "CancelledError", "d": dur(qi)}
+                stats["leaked_cancellations"] += 1
+            await w.job(f"act{qi}", id_, script, queue=queues[qi], retries=2, timeout=timedelta(seconds=60), store_result=False).enqueue()
         graceful = 20.0  # longer than every actor here: forced cancellation is C03's subject
         worker = w.worker([r], messages_limit=M, tasks_limit=tl, graceful_shutdown_time=graceful, handle_signals=[])
         # invariant at a hook (harness-side class-level wrapper): after every task-done callback the stop flag must be
@@ -203,11 +209,15 @@ async def plugin_scenario(loop, case, out, stats, fps, samples):
         seq = []
         for i in range(case["len"]):
             kindj = rnd.choice(["ok", "ok", "fail_retry", "delayed", "unrelated"])
+            if i == case["len"] - 1 and rnd.random() < 0.5:
+                kindj = "leak"  # last in the sequence: its message is never disposed of and would be served to every later run
             id_ = f"p{i:02d}"
             seq.append(kindj)
             n_before = len(w.events("actor_start"))
             if kindj == "ok":
                 job = w.job("act", id_, {"do": "ok"}, store_result=False)
+            elif kindj == "leak":
+                job = w.job("act", id_, {"do": "raise", "exc": "CancelledError"}, store_result=False)  # executed once, then over
             elif kindj == "fail_retry":
                 job = w.job("act", id_, {"by_attempt": [{"do": "raise"}, {"do": "ok"}]}, retries=1, store_result=False)
             elif kindj == "delayed":
@@ -222,7 +232,7 @@ async def plugin_scenario(loop, case, out, stats, fps, samples):
             stats["plugin_enqueues"] += 1
             new = w.events("actor_start")[n_before:]
             mine = [s for s in new if s["id"] == id_]
-            if kindj in ("ok", "fail_retry") and len(mine) != 1:
+            if kindj in ("ok", "fail_retry", "leak") and len(mine) != 1:
                 why = "ran-more-than-once" if mine else ("earlier-message-taken-instead" if new and all(s["id"] < id_ for s in new) else "nothing-ran")
                 out.append(V("plugin_not_once", "mem", why, f"after enqueue() of {id_} returned it had been executed {len(mine)} times; executed instead: {[s['id'] for s in new]}; sequence so far {seq}"))
             if kindj == "unrelated" and new:
